@@ -539,6 +539,17 @@ func runScript(sc *script) {
 			time.Sleep(closeWin)
 		case "traffic", "bindw":
 			time.Sleep(tick)
+			// a later call can (re)start emissions about a stream that is unbound: give them the same
+			// window as right after the Unbind
+			for _, u := range unbinds {
+				if !u.open || (o.K == "traffic" && u.x != o.X) {
+					continue
+				}
+				deadline := time.Now().Add(unbindWin)
+				for time.Now().Before(deadline) && r.about(u.x, u.ret, deadline) <= u.allowed {
+					time.Sleep(time.Millisecond)
+				}
+			}
 		}
 	}
 	// parked calls: released by a later step (1) or never (2)
